@@ -16,12 +16,14 @@ var Registry = map[string]Rule{
 	"C08": C08,
 	"C09": C09,
 	"C10": C10,
+	"C11": C11,
 	"C12": C12,
 	"C13": C13,
 	"C14": C14,
 	"C15": C15,
 	"C16": C16,
 	"C17": C17,
+	"C18": C18,
 	"C19": C19,
 	"C20": C20,
 }
